@@ -286,9 +286,11 @@ def concrete_playback(scratch, ob, mem_kb, timeout_s, cbmc_args=None, log_dir=No
     return cands, log
 
 
-DROP_RECURSION = ['std::ptr::drop_in_place::<serde_json::Value>', 'std::ptr::drop_glue::<serde_json::Value>']
+DROP_RECURSION = ['std::ptr::drop_in_place::<serde_json::Value>', 'std::ptr::drop_glue::<serde_json::Value>',
+                  "std::ptr::drop_in_place::<value::Parsed<'_>>", "std::ptr::drop_glue::<value::Parsed<'_>>"]
 DROP_LOOPS_RE = [
     r'^std::ptr::drop_glue::<\[serde_json::Value\]>$',
+    r"^std::ptr::drop_glue::<\[value::Parsed<'_>\]>$",
     r'^<std::collections::btree_map::IntoIter<std::string::String, serde_json::Value> as std::ops::Drop>::drop$',
     r'^alloc::collections::btree::navigate::<impl .*marker::Dying, std::string::String, serde_json::Value, .*>::(deallocating_next|deallocating_end|first_leaf_edge)(::<.*>)?$',
 ]
